@@ -110,6 +110,31 @@ CHECKS = {
         technique="TLA+ history spec + TLC exhaustive enumeration, behaviour replay into real code",
         design_ref="DESIGN.md section 5 C19",
     ),
+    "C02": dict(
+        level="model_checking",
+        text=("BoxSize.tla is a history machine over {Size, Info, Encode, EncodeSW} x trun optimisation on an abstract object; TLC "
+              "enumerates every call history up to the bound, and the same module validates the numbers recorded from the real calls "
+              "(written = Size after = Size before unless optimising; independent walker: every header size field = box length, "
+              "containers = header + children; identical bytes across encodes and encoders; Size stable across calls). Histories are "
+              "executed on every object of a pool: every box at every nesting level of every decodable corpus file, whole files in both "
+              "encode modes, their init/segments/fragments, and API-built fragments, media segments and init segments."),
+        note=("Trusted: TLC, Go driver and its independent walker, FNV digests for byte identity. The pool holds the box types and shapes "
+              "present in the corpus and the API-built objects, not every version/flag shape of every box (C01 layouts extend it)."),
+        technique="TLA+ history spec: TLC enumerates call histories, replayed on real objects, TLC trace validation of recorded numbers",
+        design_ref="DESIGN.md section 5 C02",
+    ),
+    "C03": dict(
+        level="model_checking",
+        text=("Interchange.tla states E1-E3 over pairs of observations of the two implementations of each abstract action; FileAsm.tla "
+              "enumerates the fragmented file layouts; for every pool object Encode vs EncodeSW, for every top-level box and file "
+              "(corpus and every FileAsm layout) DecodeBox/DecodeFile vs DecodeBoxSR/DecodeFileSR on canonical bytes with structure, "
+              "size, re-encoding, grouping and start positions compared, and the key sets of the dispatch tables (hook); TLC validates "
+              "the recorded outcomes."),
+        note=("Trusted: TLC, Go driver. Structure equivalence = equal Info dump (all:1), equal Size, equal re-encoded bytes, equal "
+              "file projection; default decode options only (as the property states)."),
+        technique="TLA+ spec: TLC enumerates file layouts, both implementations observed on real objects, TLC trace validation",
+        design_ref="DESIGN.md section 5 C03",
+    ),
 }
 
 PENDING_REASON = "check not built yet in this revision (planned in DESIGN.md section 5); not claimed until its machinery exists"
